@@ -95,7 +95,9 @@ def run(ctx):
                     "divisor/quotient size classes; Trace_C02 recomputes (q, r) with an independent Knuth-D on byte limbs and re-asserts the identity.",
         required_cover=["zero-divisor", "signs:++", "signs:+-", "signs:-+", "signs:--", "divisor:1w", "divisor:2w", "divisor:3-32w",
                         "divisor:>32w", "divide-and-conquer", "dword-power-of-two", "exact", "quotient-zero", "primitive-forms",
-                        "euclid", "const-divisor", "types:UU", "types:II", "types:UI", "types:IU", "types:UC", "types:IC"])
+                        "euclid", "const-divisor", "types:UU", "types:II", "types:UI", "types:IU", "types:UC", "types:IC"] +
+                       # the schoolbook division's `lhs_top == rhs_top` branch (quotient word MAX), counted by the library itself
+                       (["branch:div-simple:equal-top-words"] if fw.has_probe() else []))
 
 
 def selftest(ctx):
